@@ -23,7 +23,8 @@ class C12(Prop):
             "trades, targets k/8 (weights) or k/4 contracts, thresholds k/8 or 0, fractional and whole-lot modes; "
             "imbalance weights land exactly at, just below and just above the threshold; lot imbalances in (-1, 1) are "
             "forced; imbalances of less than 1e-7 contracts that are a large share of the account (units worth 2^24+ "
-            "accounts) or tiny targets in numbers of contracts, opening a position and topping one up. Non-trivial = some imbalance weight equals the threshold exactly, or a held contract is absent "
+            "accounts) or tiny targets in numbers of contracts, opening a position and topping one up; in 5/8 of the main family the allocation is handed over as numpy float32 "
+            "/ float64 scalars or arrays or a tuple (all values exactly representable). Non-trivial = some imbalance weight equals the threshold exactly, or a held contract is absent "
             "from the target with a positive threshold, or a sub-lot imbalance occurs in whole-lot mode; distinct = "
             "distinct cases")
     nontrivial_tags = {"at-threshold", "liquidation-under-threshold", "sub-lot", "whole-lot", "tiny-quantity"}
@@ -143,8 +144,11 @@ class C12(Prop):
         ops.append(["rebal", t, int(by_weight), 1, int(not whole), fr(margin), tgt])
         if rng.random() < 0.5:
             ops.append(["rebal", t + 1, int(by_weight), 1, int(not whole), fr(margin), tgt])
+        # exact regime: every value is a small dyadic, exactly representable in float32 too, so the form in which the
+        # allocation is handed over (Python floats, numpy float32 / float64 scalars or arrays, a tuple) changes nothing
         return dict(contracts=contracts, fees=["0", "0", "0"], deposit="65536", exact=True, ops=ops,
-                    probe_make_trades=rng.random() < 0.5)
+                    probe_make_trades=rng.random() < 0.5,
+                    alloc_form=rng.choice([None, None, None, "f32", "f32arr", "np64", "arr", "tuple"]))
 
     def run_impl(self, case):
         r, s = bs.run_case(case, self.COMPARE)
